@@ -417,8 +417,12 @@ def check_sticky(ck, case, st, tally, streams, origin, prop="C14"):
     tally.ok("sticky:returned==executor-final",
              sorted(map(tuple, triples_of_out(out))) == sorted(map(tuple, st["final"])),
              {"case": case, "out": out, "final": st["final"]})
+    # F2 path taken (possibly transiently): some executed move targets a member that is not
+    # subscribed to the moved partition's topic -> the run is by construction not a StickyAbs run
+    subs = {m: set(s_) for m, s_ in case["members"]}
+    off_path = known_invalid or any(r[3] not in subs.get(r[2], ()) for r in st["reassigns"])
     streams.append((enc_kind1(case, st), ("k1", case, st, not bad, not kb, not mon_within_one(case, out),
-                                           known_invalid)))
+                                           off_path)))
     return out
 
 
@@ -530,7 +534,7 @@ def run(ck: Check):
     tally = Tally()
     rng = ck.rng
     sample_for_coq = []          # (stream, expectation) re-evaluated by vm_compute
-    n_coq = ck.n(1600, 12000)
+    n_coq = ck.n(1000, 12000)
 
     # ---------------- known-finding corpus + corpus directory
     corpus = load_corpus()
@@ -610,7 +614,7 @@ def run(ck: Check):
         settle(ck, tally, streams, results, "ocaml")
         p2 = min(1.0, (n_coq * 0.3) / max(1, len(streams)))
         for (s, e), r in zip(streams, results):
-            if rng.random() < p2 or (e[0] == "k1" and e[1].get("claims") and rng.random() < p2):
+            if rng.random() < p2:
                 sample_for_coq.append((s, e, r))
     else:
         sample_for_coq += [(s, e, None) for s, e in streams[: n_coq // 3]]
